@@ -170,3 +170,83 @@ func vhFindKey(rule interface {
 	idx, err = rule.FindTableIndex(key)
 	return
 }
+
+//verif:harness prop=C03 bounds="INSERT / REPLACE into a linked (child) table lk whose sharding key uid differs from its parent's key id (parent t: hash rule, 4 tables): VALUES with 1..2 rows, INSERT ... SET; both id and uid are symbolic int64 literals; the row must be written once, into the sub table that the linked rule gives to its uid"
+//verif:mock (*github.com/XiaoMi/Gaea/parser/tidb-types/parser_driver.ValueExpr).Restore vhC03Restore
+func Harness_C03_LinkedInsert() {
+	vhC03Tokens = map[*driver.ValueExpr]string{}
+	rt := vhRouter(
+		&models.Shard{DB: "db", Table: "t", Type: models.ShardHash, Key: "id", Locations: []int{2, 2}, Slices: []string{"s0", "s1"}},
+		&models.Shard{DB: "db", Table: "lk", Type: models.ShardLinked, Key: "uid", ParentTable: "t"},
+	)
+	setForm := vs.Choice("form", 3) == 2
+	nrows := 1
+	if !setForm {
+		nrows = vs.IntRange("rows", 1, 2)
+	}
+	var rows []string
+	for i := 0; i < nrows; i++ {
+		if setForm {
+			rows = append(rows, fmt.Sprintf("id = 1001, uid = 2001, a = %d", 7000+i))
+		} else {
+			rows = append(rows, fmt.Sprintf("(1001, 2001, %d)", 7000+i))
+		}
+	}
+	sql := "insert into lk (id, uid, a) values " + strings.Join(rows, ", ")
+	if setForm {
+		sql = "insert into lk set " + rows[0]
+	}
+	stmt, err := parser.ParseSQL(sql)
+	vs.Assert(err == nil, "C03/fixture-parses")
+	if err != nil {
+		return
+	}
+	ins := stmt.(*ast.InsertStmt)
+	uids := make([]int64, nrows)
+	for i := 0; i < nrows; i++ {
+		var idE, uidE ast.ExprNode
+		if setForm {
+			idE, uidE = ins.Setlist[0].Expr, ins.Setlist[1].Expr
+		} else {
+			idE, uidE = ins.Lists[i][0], ins.Lists[i][1]
+		}
+		id, uid := vs.Int64("id"), vs.Int64("uid")
+		idE.(*driver.ValueExpr).SetInt64(id)
+		uidE.(*driver.ValueExpr).SetInt64(uid)
+		vhC03Tokens[idE.(*driver.ValueExpr)] = "#id" + strconv.Itoa(i) + "#"
+		vhC03Tokens[uidE.(*driver.ValueExpr)] = "#uid" + strconv.Itoa(i) + "#"
+		uids[i] = uid
+	}
+	rule, _ := rt.GetShardRule("db", "lk")
+	p, err := BuildPlan(stmt, nil, "db", sql, rt, sequence.NewSequenceManager(), nil)
+	vs.Assert(err == nil, "C03/routable-insert-accepted")
+	if err != nil {
+		return
+	}
+	ip, ok := p.(*InsertPlan)
+	vs.Assert(ok, "C03/insert-plan")
+	if !ok {
+		return
+	}
+	for i := range uids {
+		idx, ferr := rule.FindTableIndex(uids[i])
+		vs.Assert(ferr == nil, "C03/fixture")
+		target := vs.Concrete(idx)
+		marker := strconv.Itoa(7000 + i)
+		written := 0
+		for slice, dbs := range ip.sqls {
+			for _, sqls := range dbs {
+				for _, text := range sqls {
+					if !strings.Contains(text, marker) {
+						continue
+					}
+					written++
+					vs.Assert(strings.Contains(text, fmt.Sprintf("`lk_%04d`", target)), "C03/row-written-to-the-table-its-key-routes-to")
+					vs.Assert(slice == rule.GetSlice(rule.GetSliceIndexFromTableIndex(target)), "C03/row-written-on-the-slice-of-its-table")
+				}
+			}
+		}
+		vs.Assert(written == 1, "C03/row-written-exactly-once")
+	}
+	vs.Cover("C03/linked-inserted")
+}
